@@ -608,7 +608,7 @@ def gen_functional(repo: Path, notes: list) -> str:
 # -------------------------------------------------------------------------------------------------------------
 
 OBJ_CLASS_NAMES = {"bool", "int", "str", "list", "tuple", "set", "frozenset", "dict", "Options", "RuntimeContext", "Mapping",
-                   "type", "Iterable"}
+                   "type", "Iterable", "ForwardRef", "LogicalType"}
 EXC_SUBCLASSES: dict = {}      # utype exception class -> the classes defined below it (filled by `load_exc_subclasses`)
 
 
@@ -2206,6 +2206,17 @@ def gen_field(repo: Path, notes: list, gate_ok: bool) -> str:
         funcs=[{"py": f} for f in FIELD_FUNCS], externals={"copy_value"}, gate_ok=gate_ok)
 
 
+def gen_forward(repo: Path, notes: list, gate_ok: bool) -> str:
+    """Gen/Forward.lean: rule.py's module functions on forward references"""
+    src = "utype/parser/rule.py"
+    return gen_group(
+        repo, notes, src_file=src, cls_name=None, ns="Forward",
+        title="utype/parser/rule.py (resolve_forward_type)",
+        funcs=[{"py": "resolve_forward_type", "find": _find_module_func(repo, src, "resolve_forward_type"),
+                "has_self": False, "arity": 1}],
+        gate_ok=gate_ok)
+
+
 def gen_schema(repo: Path, notes: list, gate_ok: bool) -> str:
     """Gen/Schema.lean: the deleting mutators of `Schema` (a dict subclass: items under "<dict>", attributes under
     "__dict__"); the parser's `get_field`, a field's `is_required` and a property's deleter are the world's"""
@@ -2249,6 +2260,7 @@ def main():
     files["Generator.lean"] = gen_generator(repo, notes, unprov_ok)
     files["FunctionalObj.lean"] = gen_functional_obj(repo, notes, unprov_ok)
     files["Schema.lean"] = gen_schema(repo, notes, unprov_ok)
+    files["Forward.lean"] = gen_forward(repo, notes, unprov_ok)
     files["JsonTables.lean"] = gen_json_tables(repo, notes)
     files["CodecTables.lean"] = gen_codec_tables(repo, notes)
     files["NOTES.txt"] = "\n".join(notes) + ("\n" if notes else "")
